@@ -198,7 +198,7 @@ def assumptions(pid):
 
 # ---------------------------------------------------------------- stages 4/5
 
-RES_ENTRY = re.compile(r"\((\d+)(?:%nat)?\s*,\s*\[([^\]]*)\]\)")
+RES_ENTRY = re.compile(r"\(\s*(\d+)(?:%nat)?\s*,\s*\[([^\]]*)\]\s*\)")
 
 
 def eval_shard(path):
@@ -213,6 +213,9 @@ def eval_shard(path):
     for e in RES_ENTRY.finditer(m.group(1)):
         codes = [int(re.sub(r"%N", "", x)) for x in e.group(2).split(";") if x.strip()]
         fails[int(e.group(1))] = codes
+    nf = re.search(r"NFAIL\s*=\s*(\d+)", out)
+    if nf and int(nf.group(1)) != len(fails):
+        return None, "result parser lost entries: NFAIL=%s parsed=%d\n%s" % (nf.group(1), len(fails), out[-2000:])
     return fails, out
 
 
@@ -376,6 +379,9 @@ def main(argv):
                 fails = {k: v for k, v in fails.items() if k == idx}
             for idx, codes in sorted(fails.items()):
                 c = cases[idx]
+                if os.environ.get("VERIF_DEBUG"):
+                    log("FAIL", idx, codes, c.get("kf"), json.dumps(c.get("input"), default=str, ensure_ascii=False)[:300],
+                        json.dumps(c.get("impl"), default=str, ensure_ascii=False)[:300], c.get("impl_fail"))
                 kf = [e for e in known if e["id"] in (c.get("kf") or [])]
                 if kf:
                     for e in kf:
